@@ -674,6 +674,25 @@ class Fn:
                 raise TranslationError('induction variable decremented in %s' % self.name)
 
     # ------------------------------------------------------------------- main
+    def translate_block(self, stmts, pars, result_vars, final=None):
+        """Translate a list of statements of self.fn as a function of `pars`
+        [(name, type)] returning the tuple of `result_vars` (or `final()`)."""
+        self._declared = set()
+        for nm, vt in pars:
+            self.types[nm] = vt
+            self._declared.add(nm)
+            self.ver[nm] = 0
+        self.result_vars = []
+        k = final or (lambda: self.ret(self.tup([self.cur(v) for v in result_vars])))
+        term = self.block(stmts, k)
+        sig = ' '.join('(%s : %s)' % p for p in pars)
+        orc = ' (orc : string -> list Z -> bool)' if self.uses_orc else ''
+        txt = '\n\n'.join(self.loops)
+        if txt:
+            txt += '\n\n'
+        txt += 'Definition %s%s %s :=\n%s.\n' % (self.name, orc, sig, indent(term, 2))
+        return txt
+
     def translate(self, result_type=None, ctor_inits=False):
         self._declared = set()
         ps = []
